@@ -1228,6 +1228,11 @@ class _TeeIterator(Iterator[_ValueT]):
       self._exhausted = True
       self._returned = e.value
       raise e
+    except Exception:
+      # Keeps the recital aligned with the outputs when an input fails: the
+      # failure takes up a slot (e.g., a skipped one) in the output iterator.
+      self._buffer.append(None)
+      raise
     if self._buffer_size and len(self._buffer) == self._buffer_size:
       raise RuntimeError(
           f'Buffer reached capacity: {len(self._buffer)} / {self._buffer_size}.'
